@@ -112,7 +112,10 @@ func isCreator(fn *ssa.Function, immature bool) bool {
 	return direct && !setsMaturity
 }
 
-func c01ValueSources(c *Ctx, ge *GuardEngine) {
+func c01ValueSources(c *Ctx, ge *GuardEngine) { valueSources(c, ge, "value-source", nil) }
+
+// valueSources checks the creation table; only (non-nil) selects a subset of rows by id.
+func valueSources(c *Ctx, ge *GuardEngine, rule string, only map[string]bool) {
 	claim := func(pool, start, val string) string {
 		return "lit{Value: call (types.Currency).Mul64(call (types.Currency).Div64(call (types.Currency).Sub(" + pool + ", " + start + "), call (consensus.State).SiafundCount(%ST%)), " + val + "), Address: …ClaimAddress}"
 	}
@@ -141,13 +144,18 @@ func c01ValueSources(c *Ctx, ge *GuardEngine) {
 	}
 	cache := map[string][]CallFact{}
 	matched := map[string]bool{} // call positions explained by a row
+	nrows := 0
 	for _, r := range rows {
+		if only != nil && !only[r.id] {
+			continue
+		}
+		nrows++
 		cs, ok := cache[r.entry]
 		if !ok {
 			var found bool
 			cs, found = ge.EntryCalls(r.entry)
 			if !found {
-				c.Undecided("value-source", r.id, r.entry, "entry does not resolve")
+				c.Undecided(rule, r.id, r.entry, "entry does not resolve")
 				continue
 			}
 			cache[r.entry] = cs
@@ -182,7 +190,7 @@ func c01ValueSources(c *Ctx, ge *GuardEngine) {
 					continue
 				}
 			}
-			c.OK("value-source", r.id, where, cf.Name+"("+cf.Args[1]+", "+cf.Args[2]+")"+ifElse(r.immature, "  [delayed by the maturity period]", ""))
+			c.OK(rule, r.id, where, cf.Name+"("+cf.Args[1]+", "+cf.Args[2]+")"+ifElse(r.immature, "  [delayed by the maturity period]", ""))
 			done = true
 			break
 		}
@@ -196,9 +204,12 @@ func c01ValueSources(c *Ctx, ge *GuardEngine) {
 			}
 			problems = append(problems, fmt.Sprintf("no creation of %s siacoin element with ID %s reachable from %s", kind, r.id0, r.entry))
 		}
-		c.Fail("value-source", r.id, r.entry, strings.Join(problems, " | "))
+		c.Fail(rule, r.id, r.entry, strings.Join(problems, " | "))
 	}
-	c.Min("value-source", len(rows))
+	c.Min(rule, nrows)
+	if only != nil {
+		return
+	}
 	// no creation call without a row
 	for _, entry := range []string{AT, A2T, MAB} {
 		for _, cf := range cache[entry] {
